@@ -286,7 +286,7 @@ def main():
         props = {"obligations": len(names), "discharged": 0, "theorems": names, "assumptions": {},
                  "cmd": "coqc props/C07.v", "log": "%s\n%s" % (build_err.what, build_err.log), "ok": False}
     else:
-        props = C.compile_props(CID)
+        props = I.apply_poison(C.compile_props(CID))
     have_oracle = os.path.exists(os.path.join(C.BIN, "oracle_" + I.AREA))
     tot = {"evals": 0, "draws": 0, "in_domain": 0, "hist": {}, "kinds": {}, "entries": {}, "model_diff": 0,
            "spec_diff": 0, "kind_diff": 0, "pyref_checked": 0, "pyref_diff": 0, "spec_incoherent": 0}
